@@ -9,8 +9,9 @@ import vp
 
 
 class Env:
-    def __init__(self, root):
+    def __init__(self, root, as_nobody=False):
         self.root = root
+        self.as_nobody = as_nobody      # run the test process (and with it the stand-ins) as uid 65534: real permission semantics
         self.bin = os.path.join(root, "bin")
         self.tmp = os.path.join(root, "tmp")
         self.crate = os.path.join(root, "crate")
@@ -30,6 +31,8 @@ class Env:
             os.makedirs(os.path.dirname(p), exist_ok=True)
             with open(p, "w") as f:
                 f.write(content)
+        if self.as_nobody:
+            vp.chown_tree(self.root)
 
     def run(self, scenario, plan=None, timeout=120):
         for n in ("docker", "pack"):        # a scripted fault may have removed a stand-in
@@ -41,13 +44,17 @@ class Env:
                 os.unlink(p)
         vp.rmtree(self.tmp)
         os.makedirs(self.tmp)
+        if self.as_nobody:
+            os.chown(self.tmp, 65534, 65534)
+            for p in (self.bin, self.root):
+                os.chown(p, 65534, 65534)
         with open(self.scenario, "w") as f:
             json.dump(scenario, f)
         with open(self.plan, "w") as f:
             json.dump(plan or {}, f)
         env = {"PATH": self.bin + ":/usr/bin:/bin", "TMPDIR": self.tmp, "CARGO_MANIFEST_DIR": self.crate, "VP_CMDLOG": self.log, "VP_CMDPLAN": self.plan, "VP_STANDIN_BIN": self.bin, "RUST_BACKTRACE": "0"}
         try:
-            p = subprocess.run([os.path.join(vp.BIN, "vptest"), self.scenario], env=env, stdout=subprocess.PIPE, stderr=subprocess.PIPE, timeout=timeout, cwd=self.root)
+            p = subprocess.run((vp.NOBODY if self.as_nobody else []) + [os.path.join(vp.BIN, "vptest"), self.scenario], env=env, stdout=subprocess.PIPE, stderr=subprocess.PIPE, timeout=timeout, cwd=self.root)
             rc, err = p.returncode, p.stderr.decode(errors="replace")
         except subprocess.TimeoutExpired:
             rc, err = None, "timeout"
